@@ -34,3 +34,187 @@ class CanaryUpwindIsCentral(AxisOb):
 
     def claims(self, w, S, P, a):
         return [('canary', w.eq(w.apply(S['ps'][a], S['phi'], P), w.apply(S['ps2'][a], S['phi'], P)))]
+
+
+# ------------------------------------------------------------------------------------------------
+#  one canary per property: near-miss versions of real clauses (wrong weight, wrong metric factor, wrong scale, stale
+#  state, missing sign reversal, aliasing getter, foreign label).  Each must come back refuted AND replay on the real
+#  code; a canary that is "proved", undecided or not replayable is a checker fault (exit 3).
+
+from . import ops as _ops, bc as _bc, solver as _solver, embed as _embed, state as _state, units as _units
+from . import loud as _loud, heap as _heap
+from .bc import SIDES, boundary_cell, coef_at, ghost_denominator
+
+
+class CanaryUnweightedSumConserved(_ops.DiffConservation):
+    """C01 with the volume weights dropped: on a cylindrical grid the plain sum of cell values is NOT conserved"""
+    name = 'canary/diffusion_conserves_unweighted_sum'
+    props = ('C01',)
+    grids = ('CylindricalGrid1D', 'SphericalGrid1D')
+    canary = True
+
+    def W(self, w, S, P, a):
+        return S['T'][a](P) + S['T'][a](shift(P, a, 1))
+
+
+class CanaryFluxWithoutAngularMetric(_ops.DiffFluxForm):
+    """C02 with the 1/r factor of the angular gradient dropped from the two-point flux"""
+    name = 'canary/diffusion_flux_without_angular_metric'
+    props = ('C02',)
+    grids = ('PolarGrid2D', 'CylindricalGrid3D')
+    canary = True
+
+    def flux(self, w, S, a, P, side):
+        lo, hi = _ops._lohi(w, S, a, P, side)
+        cs = getattr(w.mesh.cellsize, '_' + AX[a])
+        dist = (w.at(cs, (lo[a],)) + w.at(cs, (hi[a],))) / 2
+        return self.kf(w, S, a, P, side) * (w.at(S['phi'], hi) - w.at(S['phi'], lo)) / dist
+
+
+class CanaryRobinWithoutAngularMetric(_bc._BCOb):
+    """C03 with the 1/r factor of the angular difference quotient dropped from the boundary relation"""
+    name = 'canary/ghost_satisfies_robin_without_angular_metric'
+    props = ('C03',)
+    grids = ('PolarGrid2D',)
+    pattern = 'nn'
+    canary = True
+
+    def setup(self, w):
+        BC, coefs = _bc.make_bc(w, self.pattern)
+        phi = w.array('phi', tuple(w.N))
+        return dict(out=bnd.cellValuesWithBoundaries(phi, BC), coefs=coefs)
+
+    def claims(self, w, S, P, part):
+        a, s = part
+        Q, G = boundary_cell(w, P, a, s)
+        vg, vq = w.at(S['out'], G), w.at(S['out'], Q)
+        lo, hi = (vg, vq) if s == 0 else (vq, vg)
+        cs = getattr(w.mesh.cellsize, '_' + AX[a])
+        h = w.at(cs, (0,)) if s == 0 else w.at(cs, (w.N[a] + 1,))
+        A, Bc, C = (coef_at(w, S['coefs'], a, s, cn, Q) for cn in 'abc')
+        resid = A * (hi - lo) / h + Bc * (hi + lo) / 2 - C
+        den = ghost_denominator(w, S['coefs'], a, s, Q)
+        if w.symbolic:
+            return [('canary[%s]' % SIDES[a][s], (R.of(den) != 0).implies(R.of(resid) == 0))]
+        if abs(den) <= 1e-6:
+            return []
+        w.scale = 1e3
+        return [('canary[%s]' % SIDES[a][s], w.eq(resid, 0.0))]
+
+
+class CanarySolvePDEIgnoresScale(_solver.SolvePDE):
+    """C04 claiming that the term 2.0*linearSourceTerm enters the system with factor 1"""
+    name = 'canary/solvePDE_system_ignores_term_scale'
+    props = ('C04',)
+    grids = ('Grid1D', 'Grid2D')
+    canary = True
+    claimed_scale = 1.0
+
+    def parts(self, w):
+        return ['rows']
+
+
+class CanaryMirrorKeepsVelocity(_embed.Mirror):
+    """C08 mirroring WITHOUT reversing the velocity component"""
+    name = 'canary/mirror_without_reversing_velocity'
+    props = ('C08',)
+    grids = ('Grid1D', 'Grid2D')
+    canary = True
+    reverse_velocity = False
+
+
+class CanaryStaleGhostsSatisfyBCs(_state._StateOb):
+    """C09: a variable whose .value was assigned (and not yet re-synchronised) does NOT satisfy the content part of Inv"""
+    name = 'canary/value_dirty_state_has_current_ghosts'
+    props = ('C09',)
+    grids = ('Grid1D', 'Grid2D')
+    canary = True
+
+    def setup(self, w):
+        return dict(cv=_state.make_prestate(w, 'phi0', 'value-dirty'))
+
+    def parts(self, w):
+        return [(a, s) for a in range(w.nd) for s in (0, 1)]
+
+    def claims(self, w, S, P, part):
+        return [c for c in _state.inv_claims(w, S['cv'], P, part, 'cv', force=True) if 'ghost' in c[0]]
+
+
+class CanaryTransientIsAlphaTimesDt(_solver.TransientTerm):
+    """C12 with alpha*dt on the diagonal instead of alpha/dt"""
+    name = 'canary/transient_matrix_is_alpha_times_dt'
+    props = ('C12',)
+    grids = ('Grid1D', 'PolarGrid2D')
+    canary = True
+
+    def region(self, w):
+        return w.interior()
+
+    def points(self, w):
+        return w.interior_points()
+
+    def claims(self, w, S, P, part=None):
+        return [('canary', w.eq(w.apply(S['M'], S['phi'], P), S['alpha'] * S['dt'] * w.at(S['phi'], P)))]
+
+
+class CanarySubtractionCommutes(Ob):
+    """C14: (a - b) elementwise equals (b - a)"""
+    name = 'canary/cellvariable_subtraction_commutes'
+    props = ('C14',)
+    grids = ('Grid1D', 'Grid2D')
+    canary = True
+
+    def setup(self, w):
+        a, _ = _solver.make_cellvar(w, 'va')
+        b, _ = _solver.make_cellvar(w, 'vb')
+        return dict(a=a, b=b, r=a - b)
+
+    def claims(self, w, S, P, part=None):
+        return [('canary', w.eq(w.at(S['r']._value, P), w.at(S['b']._value, P) - w.at(S['a']._value, P)))]
+
+
+class CanaryCellPropGetterIsFresh(Ob):
+    """C15 machinery: mesh.cellsize.<label> returns the stored array itself, so 'the result does not alias the inputs'
+    must be reported false for it"""
+    name = 'canary/coordinate_getter_returns_fresh_array'
+    props = ('C15',)
+    grids = ('Grid1D', 'CylindricalGrid2D')
+    canary = True
+
+    def region(self, w):
+        return []
+
+    def points(self, w):
+        return [()]
+
+    def setup(self, w):
+        f = _heap.Frame(w, (w.mesh,))
+        r = w.mesh.cellsize._x
+        return dict(obs=f.done(r))
+
+    def claims(self, w, S, P, part=None):
+        return [('canary', _heap.flag(w, not S['obs']['aliased']))]
+
+
+class CanaryForeignLabelReadable(_loud._EnumOb):
+    """C16: a label foreign to the coordinate system is readable"""
+    name = 'canary/foreign_coordinate_label_is_readable'
+    props = ('C16',)
+    grids = ('Grid1D', 'SphericalGrid3D')
+    canary = True
+
+    def setup(self, w):
+        foreign = 'theta' if w.grid == 'Grid1D' else 'x'
+        return dict(got=_loud.outcome(lambda: getattr(w.mesh.cellcenters, foreign))[0])
+
+    def claims(self, w, S, P, part=None):
+        return [('canary', _heap.flag(w, S['got'] == 'ok'))]
+
+
+class CanaryDiffusivityScalesAsLength(_units.DiffUnits):
+    """C17 with D rescaled by L/T instead of L^2/T"""
+    name = 'canary/diffusivity_scales_as_length_over_time'
+    props = ('C17',)
+    grids = ('Grid1D', 'CylindricalGrid2D')
+    canary = True
+    d_length_power = 1
